@@ -435,7 +435,7 @@ impl Authorizer {
                         self.world
                             .query_match_all(query, &rule_trusted_origins, &self.symbols)?
                     }
-                    CheckKind::Reject => !self.world.query_match(
+                    CheckKind::Reject => self.world.query_match(
                         query,
                         usize::MAX,
                         &rule_trusted_origins,
@@ -448,7 +448,13 @@ impl Authorizer {
                     return Err(error::Token::RunLimit(error::RunLimit::Timeout));
                 }
 
-                if res {
+                // `reject if` passes only if none of its alternatives matches
+                if check.kind == CheckKind::Reject {
+                    successful = !res;
+                    if res {
+                        break;
+                    }
+                } else if res {
                     successful = true;
                     break;
                 }
@@ -494,7 +500,7 @@ impl Authorizer {
                             &rule_trusted_origins,
                             &self.symbols,
                         )?,
-                        CheckKind::Reject => !self.world.query_match(
+                        CheckKind::Reject => self.world.query_match(
                             query.clone(),
                             0,
                             &rule_trusted_origins,
@@ -507,7 +513,13 @@ impl Authorizer {
                         return Err(error::Token::RunLimit(error::RunLimit::Timeout));
                     }
 
-                    if res {
+                    // `reject if` passes only if none of its alternatives matches
+                    if check.kind == CheckKind::Reject {
+                        successful = !res;
+                        if res {
+                            break;
+                        }
+                    } else if res {
                         successful = true;
                         break;
                     }
@@ -587,7 +599,7 @@ impl Authorizer {
                                 &rule_trusted_origins,
                                 &self.symbols,
                             )?,
-                            CheckKind::Reject => !self.world.query_match(
+                            CheckKind::Reject => self.world.query_match(
                                 query.clone(),
                                 i + 1,
                                 &rule_trusted_origins,
@@ -600,7 +612,13 @@ impl Authorizer {
                             return Err(error::Token::RunLimit(error::RunLimit::Timeout));
                         }
 
-                        if res {
+                        // `reject if` passes only if none of its alternatives matches
+                        if check.kind == CheckKind::Reject {
+                            successful = !res;
+                            if res {
+                                break;
+                            }
+                        } else if res {
                             successful = true;
                             break;
                         }
